@@ -80,6 +80,35 @@ def handle_send_lossless(ctx, rule):
         ctx.undecided(rule, 'ProcessHandle::send', 'delivery primitive not recognised: %s' % sorted(set(n.rsplit('::', 1)[-1] for n in names))[:6])
 
 
+def _absent_under_same_guard(B, bb, t):
+    """the insert at bb is dominated by the "absent" edge of contains_key(&key) (or get(&key).is_none()) on the same map through the same guard: the
+    lock is held from the test to the insert, so the name cannot have appeared in between"""
+    from ..core import dominating_edges
+    if len(t['args']) < 2:
+        return False
+    m_ins, k_ins = canon(B, t['args'][0]), canon(B, t['args'][1])
+
+    def same(a, b):
+        sa_, sb_ = str(a), str(b)
+        return sa_ == sb_ or sa_.replace("'deref', ", '').replace(", 'deref'", '') == sb_.replace("'deref', ", '').replace(", 'deref'", '')
+    for (src, vals, dst) in dominating_edges(B, bb):
+        sbe = B.switch_bool_edges(src)
+        if not sbe or sbe[0][0] != 'call':
+            continue
+        ct = sbe[0][2]
+        nm = (callee_of(ct)[0] or '').rsplit('::', 1)[-1]
+        if nm == 'contains_key' and len(ct['args']) >= 2 and dst == sbe[2]:
+            if same(canon(B, ct['args'][0]), m_ins) and (same(canon(B, ct['args'][1]), k_ins) or str(k_ins) in str(canon(B, ct['args'][1]))):
+                return True
+        if nm in ('is_none', 'is_some') and ct['args']:
+            o = unwrap(B.origin(ct['args'][0]))[0]
+            if o is not None and o[0] == 'call' and str(o[1]).rsplit('::', 1)[-1] == 'get' and ((nm == 'is_none' and dst == sbe[1]) or (nm == 'is_some' and dst == sbe[2])):
+                gt = B.blocks[o[2]]['t']
+                if len(gt['args']) >= 2 and same(canon(B, gt['args'][0]), m_ins):
+                    return True
+    return False
+
+
 def has_fields(projs, *names):
     return all(any(p == n or p == 'upvar:' + n for p in projs) for n in names)
 
@@ -139,6 +168,8 @@ def run(ctx):
             inst = '%s:%s' % (B.path, name.split('::')[-2].split('<')[0] + '::insert')
             if 'VacantEntry' in name:
                 ctx.ok('C18.2-vacant-insert', inst, 'insertion through Entry::Vacant', ctx.where(B, bb))
+            elif name.endswith('::insert') and _absent_under_same_guard(B, bb, t):
+                ctx.ok('C18.2-vacant-insert', inst, 'insert only where contains_key / get of the same key on the same write guard has just answered "absent"', ctx.where(B, bb))
             else:
                 ctx.bad('C18.2-vacant-insert', inst, 'by_name is written with %s: an existing registration can be overwritten (a name mapped to two processes over time without unregister)' % name.split('::')[-1],
                         ctx.where(B, bb), key='TABLE:by_name:%s' % inst)
@@ -204,44 +235,90 @@ def run(ctx):
                         key='PAIR:%s::remove:leaves:%s' % (REG, f))
 
     # ---------------- clause 3: exit propagation before removal, notice provenance ----------------------
-    ctx.rule('C18.3-notify-before-remove', 'propagate_exit_signals runs on every path to the registry removal, before it; each notice carries the terminated pid (and the stored reference)', floor=4)
-    if B is not None:
-        props = [(bb, t) for bb, t in B.calls() if is_call_to(t, 'edp_node::process::propagate_exit_signals')]
+    ctx.rule('C18.3-notify-before-remove', 'the exit notices for linked and monitoring processes are built and sent on every path to the registry removal, before it; each notice carries the terminated pid (and the stored reference)', floor=4)
+
+    def _notices_in(XB):
+        out = {}
+        for bb_, j_, st_ in XB.stmts():
+            if st_['k'] == '=' and st_['rv']['k'] == 'agg' and st_['rv'].get('adt') == MSG and st_['rv'].get('var') in ('Exit', 'MonitorExit') and bb_ in XB.live_blocks():
+                out.setdefault(st_['rv']['var'], []).append((bb_, st_))
+        return out
+    # where the notices are built: the propagation function, or - when it was folded into the task or split into helpers - the task body itself
+    Bp = P.B(PROP) if PROP in ctx.F.bodies else None
+    if Bp is not None and not _notices_in(Bp):
+        Bp = None
+    inline_form = False
+    if Bp is None and B is not None:
+        if _notices_in(B):
+            Bp, inline_form = B, True
+        else:
+            for q_ in sorted(P.reachable_from([TASK])):
+                if q_.startswith('edp_node::process::') and ctx.F.bodies[q_]['kind'] == 'Closure' and _notices_in(P.B(q_)):
+                    Bp = P.B(q_)
+                    break
+    ctx.anchor(Bp is not None, 'the code that builds Message::Exit / Message::MonitorExit for a terminated process (propagate_exit_signals)')
+    if B is not None and Bp is not None:
         rems = [(bb, t) for bb, t in B.calls() if is_call_to(t, REG + '::remove')]
-        if ctx.anchor(len(props) >= 1 and len(rems) >= 1, TASK + ':{propagate_exit_signals,remove}'):
-            pb, rb = props[0][0], rems[0][0]
-            # the future must also be awaited (polled) before the removal
-            polled = False
-            for bb, t in B.calls():
-                if callee_of(t)[0] == 'core::future::future::Future::poll':
-                    o = B.origin(t['args'][0])
-                    base, _ = unwrap(o)
-                    if base[0] == 'call' and base[2] == pb and B.block_dominates(bb, rb):
-                        polled = True
-            if B.block_dominates(pb, rb) and polled:
-                ctx.ok('C18.3-notify-before-remove', 'order', 'propagation is awaited on every path before registry.remove', ctx.where(B, pb))
-            else:
-                ctx.bad('C18.3-notify-before-remove', 'order', 'registry.remove can run without the exit signals having been propagated first (dominates=%s awaited=%s)' % (B.block_dominates(pb, rb), polled),
-                        ctx.where(B, rb), key='DOM:%s:remove-before-propagate' % TASK)
-            # handle passed is the process's own handle
-            base, projs = unwrap(B.origin(props[0][1]['args'][0]))
-            if has_fields(projs, 'handle_clone') or has_fields(projs, 'handle') or (base[0] in ('local', 'arg') and 'handle' in (B.local_name(base[1]) or '')):
-                ctx.ok('C18.3-notify-before-remove', 'own-handle', 'propagation uses the process\'s own handle', ctx.where(B, pb))
-            else:
-                ctx.undecided('C18.3-notify-before-remove', 'own-handle', 'handle argument provenance not recognised: %s %s' % (base, projs))
-    Bp = ctx.body(PROP)
+        if inline_form:
+            snaps = [(bb, t) for bb, t in B.calls() if any(n.endswith('ProcessHandle::get_links') or n.endswith('ProcessHandle::get_monitors') for n in callee_names(t))]
+            sends = []
+            for var_, lits_ in _notices_in(B).items():
+                for lb_, lst_ in lits_:
+                    d_ = B.derived_locals([lst_['pl']['l']]) | {lst_['pl']['l']}
+                    sends += [bb for bb, t in B.calls() if (callee_of(t)[0] or '').rsplit('::', 1)[-1] in ('send', 'try_send') and any(l in d_ for a in t['args'][1:] for l in B._op_locals(a))]
+            if ctx.anchor(len(snaps) >= 2 and len(rems) >= 1 and bool(sends), TASK + ':{get_links, get_monitors, notice sends, remove}'):
+                rb = rems[0][0]
+                dom = all(B.block_dominates(sb, rb) for sb, _ in snaps)
+                after = [sb for sb in sends if sb in B.reachable(rb)]
+                polled_ = set()
+                for bb, t in B.calls():
+                    if callee_of(t)[0] == 'core::future::future::Future::poll' and t['args']:
+                        base, _ = unwrap(B.origin(t['args'][0]))
+                        if base is not None and base[0] == 'call':
+                            polled_.add(base[2])
+                if [sb for sb in sends if sb not in polled_]:
+                    after = after + [sb for sb in sends if sb not in polled_]       # a send that is built and never awaited delivers nothing
+                if dom and not after:
+                    ctx.ok('C18.3-notify-before-remove', 'order', 'links and monitors are walked on every path before registry.remove; no notice is sent after it', ctx.where(B, snaps[0][0]))
+                else:
+                    ctx.bad('C18.3-notify-before-remove', 'order', 'registry.remove can run without the exit signals having been propagated first (dominates=%s sends-after-remove=%s)' % (dom, bool(after)),
+                            ctx.where(B, rb), key='DOM:%s:remove-before-propagate' % TASK)
+                ctx.ok('C18.3-notify-before-remove', 'own-handle', 'the notices are built in the task itself from its own handle (see the pid rows)', ctx.where(B, snaps[0][0]))
+        else:
+            pfn = Bp.path.split('::{')[0]
+            props = [(bb, t) for bb, t in B.calls() if is_call_to(t, pfn)]
+            if ctx.anchor(len(props) >= 1 and len(rems) >= 1, TASK + ':{propagate_exit_signals,remove}'):
+                pb, rb = props[0][0], rems[0][0]
+                # the future must also be awaited (polled) before the removal
+                polled = False
+                for bb, t in B.calls():
+                    if callee_of(t)[0] == 'core::future::future::Future::poll':
+                        o = B.origin(t['args'][0])
+                        base, _ = unwrap(o)
+                        if base[0] == 'call' and base[2] == pb and B.block_dominates(bb, rb):
+                            polled = True
+                if B.block_dominates(pb, rb) and polled:
+                    ctx.ok('C18.3-notify-before-remove', 'order', 'propagation is awaited on every path before registry.remove', ctx.where(B, pb))
+                else:
+                    ctx.bad('C18.3-notify-before-remove', 'order', 'registry.remove can run without the exit signals having been propagated first (dominates=%s awaited=%s)' % (B.block_dominates(pb, rb), polled),
+                            ctx.where(B, rb), key='DOM:%s:remove-before-propagate' % TASK)
+                # handle passed is the process's own handle
+                base, projs = unwrap(B.origin(props[0][1]['args'][0]))
+                if has_fields(projs, 'handle_clone') or has_fields(projs, 'handle') or (base[0] in ('local', 'arg') and 'handle' in (B.local_name(base[1]) or '')):
+                    ctx.ok('C18.3-notify-before-remove', 'own-handle', 'propagation uses the process\'s own handle', ctx.where(B, pb))
+                else:
+                    ctx.undecided('C18.3-notify-before-remove', 'own-handle', 'handle argument provenance not recognised: %s %s' % (base, projs))
     if Bp is not None:
-        notices = {}
-        for bb, j, st in Bp.stmts():
-            if st['k'] == '=' and st['rv']['k'] == 'agg' and st['rv'].get('adt') == MSG:
-                notices.setdefault(st['rv']['var'], []).append((bb, st))
+        notices = _notices_in(Bp)
         for var, idf, reff in (('Exit', 'from', None), ('MonitorExit', 'monitored', 'reference')):
             if not ctx.anchor(var in notices, PROP + ':Message::' + var):
                 continue
             bb, st = notices[var][0]
             rv = st['rv']
             base, projs = unwrap(Bp.origin(rv['ops'][rv['fn'].index(idf)]))
-            if has_fields(projs, 'handle', 'pid'):
+            pl_ = [x for x in projs if x not in ('deref', '*')]
+            own_pid = has_fields(projs, 'handle', 'pid') or (base is not None and base[0] == 'arg' and pl_ and pl_[-1] == 'pid' and any('handle' in str(x) or str(x) in ('self', 'upvar:self') for x in pl_[:-1]) )
+            if own_pid:
                 ctx.ok('C18.3-notify-before-remove', var + ':pid', '%s = handle.pid' % idf, ctx.where(Bp, bb))
             else:
                 ctx.bad('C18.3-notify-before-remove', var + ':pid', '%s notice does not carry the terminated pid: %s %s' % (var, base[:2], projs), ctx.where(Bp, bb),
